@@ -64,7 +64,7 @@ class Ctx:
         hdir = os.path.join(VERIF, "harness")
         if REPO != "/repo":
             hdir = os.path.join(self.dir, "harness-src")
-            shutil.copytree(os.path.join(VERIF, "harness"), hdir)
+            shutil.copytree(os.path.join(VERIF, "harness"), hdir, dirs_exist_ok=True)
             gm = open(os.path.join(hdir, "go.mod")).read().replace("=> /repo", "=> " + REPO)
             open(os.path.join(hdir, "go.mod"), "w").write(gm)
         p = subprocess.run(cmd, cwd=hdir, env=env, capture_output=True, text=True)
@@ -245,8 +245,10 @@ def finish(ctx, res, attribute=None):
         "assumptions": res.assumptions, "wall_s": round(time.time() - ctx.t0, 1), "violations": len(new),
         "known_findings_observed": sorted(seen_known),
     }
-    os.makedirs(os.path.join(VERIF, "evidence"), exist_ok=True)
-    json.dump(ev, open(os.path.join(VERIF, "evidence", f"{ctx.prop}.json"), "w"), indent=1, ensure_ascii=False)
+    # evidence describes runs against /repo itself; runs against a scratch tree (VERIF_REPO) keep theirs apart
+    evdir = os.path.join(VERIF, "evidence") if REPO == "/repo" else os.path.join(VERIF, ".scratch", "evidence-" + os.path.basename(REPO))
+    os.makedirs(evdir, exist_ok=True)
+    json.dump(ev, open(os.path.join(evdir, f"{ctx.prop}.json"), "w"), indent=1, ensure_ascii=False)
     ctx.log(f"done: evaluations={res.evaluations} nontrivial={res.nontrivial} traces={res.traces} "
             f"tlc_states={ctx.tlc_states} violations={len(new)} known={len(seen_known)} exit={rc}")
     return rc
